@@ -3,6 +3,8 @@ import CanVerif.Spec.DbcRT
 import CanVerif.Proofs.DbcText
 import CanVerif.Proofs.DbcVal
 import CanVerif.Props.C20
+import CanVerif.Model.DbcStart
+import CanVerif.Props.C04
 /-!
 # C05 - DBC round trip is lossless and its output is a fixed point: the frame section
 
@@ -99,6 +101,55 @@ theorem frames_roundtrip_with_bad_lines (bs : List Block) (h : bs.all wfBlock = 
   unfold readFrames
   rw [C20.bad_lines_ignored framesReader isBad hbad [] lines, hl]
   exact frames_roundtrip bs h
+
+/-! ## the start-value carrier (`GenSigStartValue`): initial values survive the round trip
+
+(Model/DbcStart.lean: what the writer emits and what the reader assumes, after fixes f45ef57 and ca8ce77; the scaling
+arithmetic and its exactness conditions are those of C04.) -/
+
+
+/-- the exactness conditions of C04 (28 significant digits suffice for the products and sums involved) -/
+def ExactAt (s : ScaleSig) (r : Int) : Prop :=
+  s.factor.coeff ≠ 0 ∧ nd (r.natAbs * s.factor.coeff) ≤ PREC ∧
+  nd (Spec.physOf r (C04.exOf s.factor) (C04.exOf s.offset)).m.natAbs ≤ PREC ∧ nd s.offset.coeff ≤ PREC ∧
+  nd (Spec.Ex.add (Spec.physOf r (C04.exOf s.factor) (C04.exOf s.offset)) (Spec.Ex.neg (C04.exOf s.offset))).m.natAbs ≤ PREC
+
+theorem start_value_roundtrip (g : StartSig) (dflt : Option Dec) (r : Int)
+    (hinit : g.initial = g.s.raw2phys r)
+    (hin : Dec.le g.min g.initial = true ∧ Dec.le g.initial g.max = true)
+    (hex : ExactAt g.s r) :
+    g.readStart (g.writeStart dflt) dflt = g.initial := by
+  obtain ⟨hf, h1, h2, h3, h4⟩ := hex
+  have hraw : g.startRaw = r := by
+    unfold StartSig.startRaw StartSig.physDefault
+    simp only [hin.1, hin.2, Bool.and_self, if_true]
+    rw [hinit]
+    exact C04.phys2raw_raw2phys g.s r hf h1 h2 h3 h4
+  unfold StartSig.writeStart StartSig.readStart
+  simp only [hraw]
+  by_cases hc : (r != g.assumed dflt || (dflt.isNone && r != 0)) = true
+  · simp only [hc, if_true, Option.getD_some]; exact hinit.symm
+  · simp only [hc, Bool.false_eq_true, if_false, Option.getD_none]
+    have : r = g.assumed dflt := by
+      have h' : (r != g.assumed dflt) = false := by
+        cases hb : (r != g.assumed dflt) <;> simp_all
+      simpa using h'
+    rw [← this]; exact hinit.symm
+def exDefault : StartSig := { s := { size := 8, signed := true, factor := ⟨false, 1, 0⟩, offset := ⟨false, 0, 0⟩ }, min := ⟨true, 128, 0⟩, max := ⟨false, 127, 0⟩, initial := ⟨false, 5, 0⟩ }
+def exRawZero : StartSig := { s := { size := 1, signed := false, factor := ⟨true, 5, -1⟩, offset := ⟨false, 15, -1⟩ }, min := ⟨false, 10, -1⟩, max := ⟨false, 15, -1⟩, initial := ⟨false, 15, -1⟩ }
+
+/-- before fix ca8ce77: with a default on the definition nothing was written and the initial value 5 came back as 0 -/
+theorem old_writer_loses_start_value_with_default :
+    exDefault.readStart (exDefault.writeStartOld (some zeroDec)) (some zeroDec) = ⟨false, 0, 0⟩ ∧
+    exDefault.readStart (exDefault.writeStart (some zeroDec)) (some zeroDec) = ⟨false, 5, 0⟩ := by
+  decide +kernel
+
+/-- before fix f45ef57: a raw start value 0 was never written although the reader assumes the raw value of the minimum when
+physical 0 is outside the limits: initial value 1.5 came back as 1.0 -/
+theorem old_writer_loses_raw_zero :
+    exRawZero.readStart (exRawZero.writeStartOld none) none = ⟨false, 10, -1⟩ ∧
+    exRawZero.readStart (exRawZero.writeStart none) none = ⟨false, 15, -1⟩ := by
+  decide +kernel
 
 /-! ## non-vacuity -/
 
